@@ -210,7 +210,7 @@ fn wl<S: Strategy<T>>(w: &Arc<Mutex<World<S>>>) -> std::sync::MutexGuard<'_, Wor
 }
 
 fn inv(op: &str, c: i64, a: i64, b: i64, r: i64) {
-    sched::yield_point(false);
+    sched::yield_at(false, "inv");
     sched::op_begin();
     sched::log(json!({"e": "inv", "t": sched::tid() as i64, "op": op, "c": c, "a": a, "b": b, "r": r}));
 }
